@@ -276,12 +276,105 @@ Section SimpleCleaning.
       end
     end.
 
+  (* ---- the filter as an OBJECT: what a call finds in the per-call variables ----
+     counts[], punct/spaces, previous, previous_run are declared and initialised inside operator() in the
+     source (flags regenerated from simple_cleaning_main.cc).  Were one of them hoisted into the object, a call
+     would start from what the previous call (previous field, previous line) left: the model follows the flags. *)
+  Definition sc_call_init (carried : sc_state) : sc_state :=
+    mkS (if sc_counts_fresh_each_call then (fun _ => 0%N) else counts carried)
+        (if sc_punct_spaces_fresh_each_call then 0%N else punct carried)
+        (if sc_punct_spaces_fresh_each_call then 0%N else spaces carried)
+        (if sc_counts_fresh_each_call then 0%N else total carried)
+        (if sc_previous_fresh_each_call then 0 else previous carried)
+        (if sc_previous_run_fresh_each_call then 0%N else previous_run carried).
+
+  Definition sc_post (st : sc_state) : bool :=
+    let characters := total st in
+    if (characters <? sc_min_chars o)%N then false else
+    let common_inherited := ((counts st script_inherited + counts st script_common + two64 - spaces st) mod two64)%N in
+    if too_common common_inherited characters then false else
+    if (sc_min_punct_sample_size o <? characters)%N && little_punct (punct st) characters then false else
+    if negb (Nat.eqb (sc_nscripts o) 0) && script_low (counts st) characters then false else true.
+
+  (* one call of the object on a field: decision and what the call leaves behind
+     (on an early `return false` approximated by the state the call started from) *)
+  Definition sc_filter_obj (carried : sc_state) (l : line) : bool * sc_state :=
+    let st0 := sc_call_init carried in
+    match sc_loop (length l) st0 l with
+    | None => (false, st0)
+    | Some st => (sc_post st, st)
+    end.
+
+  (* IndividualFields with the callback object threaded through every call *)
+  Fixpoint take_fields_obj (fuel : nat) (n : option nat) (d : Z) (rest : list Z) (c : sc_state) : (bool + list Z) * sc_state :=
+    match fuel with
+    | O => (inl true, c)
+    | S fuel' =>
+      match n with
+      | Some O => (inr rest, c)
+      | _ =>
+        let (field, after) := split_first d rest [] in
+        let (ok, c') := sc_filter_obj c field in
+        if negb ok then (inl false, c') else
+        match after with
+        | None => (inl true, c')
+        | Some r => take_fields_obj fuel' (match n with Some (S k) => Some k | _ => None end) d r c'
+        end
+      end
+    end.
+
+  Fixpoint individual_fields_obj (ranges : list (nat * option nat)) (index : nat) (d : Z) (rest : list Z) (c : sc_state) : bool * sc_state :=
+    match ranges with
+    | [] => (true, c)
+    | (b, e) :: more =>
+      match skip_fields (b - index) d rest with
+      | None => (true, c)
+      | Some rest1 =>
+        let idx1 := Nat.max index b in
+        match take_fields_obj (S (S (length rest1))) (match e with Some e' => Some (e' - idx1)%nat | None => None end) d rest1 c with
+        | (inl r, c') => (r, c')
+        | (inr rest2, c') => individual_fields_obj more (match e with Some e' => Nat.max idx1 e' | None => idx1 end) d rest2 c'
+        end
+      end
+    end.
+
   (* SimpleCleaningFilterFields::operator() *)
   Definition sc_line_keep (ranges : list (nat * option nat)) (d : Z) (l : line) : bool :=
     individual_fields ranges 0 d l.
   Definition simple_cleaning (ranges : list (nat * option nat)) (d : Z) (ls : list line) : list line :=
     filter (sc_line_keep ranges d) ls.
 End SimpleCleaning.
+
+(* ------------------------------------------------------------------ the tools as the LOOPS they are
+   `while (read a line) { if (pass(line)) out << line << '\n'; }` with everything that lives across iterations in
+   the C++ as explicit state: the pass object (S), the line variable (declared outside the loop in
+   remove_invalid_utf8 and FilterParallel and overwritten by every read), the input/output counters of
+   FilterParallel, the output stream.  [l_out] is what was written. *)
+Section LineLoop.
+  Variable S : Type.
+  Variable pass : S -> line -> bool * S.
+  Record loop_state : Type := mkLoop { l_obj : S; l_line : line; l_input : N; l_output : N; l_out : list line }.
+  Definition loop_step (st : loop_state) (rec : line) : loop_state :=
+    let st1 := mkLoop (l_obj st) rec (l_input st + 1)%N (l_output st) (l_out st) in      (* line = in.ReadLine(); ++input *)
+    let (keep, obj') := pass (l_obj st1) (l_line st1) in                                 (* pass(line) reads the variable *)
+    if keep then mkLoop obj' (l_line st1) (l_input st1) (l_output st1 + 1)%N (l_out st1 ++ [l_line st1])
+    else mkLoop obj' (l_line st1) (l_input st1) (l_output st1) (l_out st1).
+  Definition run_loop (obj0 : S) (recs : list line) : loop_state :=
+    fold_left loop_step recs (mkLoop obj0 [] 0%N 0%N []).
+End LineLoop.
+Arguments l_out {S}.
+Arguments l_input {S}.
+Arguments l_output {S}.
+
+Definition remove_long_lines_loop (limit : N) (recs : list line) : list line :=
+  l_out (run_loop unit (fun _ l => (long_keep limit l, tt)) tt recs).
+Definition remove_invalid_utf8_loop (recs : list line) : list line :=
+  l_out (run_loop unit (fun _ l => (wf_utf8 l, tt)) tt recs).
+Definition simple_cleaning_loop script_of is_punct is_uspace script_common script_inherited too_common little_punct script_low o
+    (ranges : list (nat * option nat)) (d : Z) (recs : list line) : list line :=
+  l_out (run_loop sc_state
+           (fun c l => individual_fields_obj script_of is_punct is_uspace script_common script_inherited too_common little_punct script_low o ranges 0 d l c)
+           sc_init recs).
 
 (* ------------------------------------------------------------------ the tools on bytes *)
 Definition lines_of (input : list Z) : list line := records newline true input.
